@@ -349,3 +349,144 @@ impl Scenario for C16 {
 		out
 	}
 }
+
+// ---------------------------------------------------------------------------------------------
+// Fresh processes: the shipped executable under production address hashing and ASLR
+// ---------------------------------------------------------------------------------------------
+
+#[derive(Serialize, Deserialize, Clone, Debug, PartialEq, Eq)]
+pub struct ProcPlan {
+	pub target: Prog,
+	pub repeats: u8,
+	/// environment noise that shifts allocations between the processes
+	pub env_padding: Vec<usize>,
+}
+
+/// `c16_procs`: the same program and configuration in several fresh processes of the real binary;
+/// stdout, stderr and exit status must be byte-identical across them ("wild" mode: the replay
+/// is statistical - repeat until two outputs differ - and labelled so).
+pub struct C16Procs;
+
+impl Scenario for C16Procs {
+	type Plan = ProcPlan;
+	fn name(&self) -> &'static str {
+		"c16_procs"
+	}
+	fn property(&self) -> &'static str {
+		"C16"
+	}
+	fn check_teardown(&self) -> bool {
+		false
+	}
+	fn components(&self) -> Value {
+		json!({
+			"real": ["the jrsonnet executable (dev profile, guard off: production address hashing), fresh process per evaluation, ASLR, varying environment size"],
+			"stub": []
+		})
+	}
+	fn generate(&self, rng: &mut Rng, _tier: Tier) -> ProcPlan {
+		let mut target;
+		loop {
+			target = gen_order_sensitive(rng);
+			// library files are not materialised for this scenario
+			if target.libs.is_empty() {
+				break;
+			}
+		}
+		let repeats = 3 + rng.below(3) as u8;
+		ProcPlan {
+			target,
+			repeats,
+			env_padding: (0..repeats).map(|_| rng.below(4000)).collect(),
+		}
+	}
+	fn execute(&self, plan: &ProcPlan, rec: &mut Recorder) {
+		use crate::pool::Arg;
+		let scratch = crate::proc::Scratch::new();
+		let mut args: Vec<String> = Vec::new();
+		for (k, v) in &plan.target.ext {
+			match v {
+				Arg::Str(s) => {
+					args.push("--ext-str".to_owned());
+					args.push(format!("{k}={s}"));
+				}
+				Arg::Code(c) => {
+					args.push("--ext-code".to_owned());
+					args.push(format!("{k}={c}"));
+				}
+			}
+		}
+		for (k, v) in &plan.target.tla {
+			match v {
+				Arg::Str(s) => {
+					args.push("--tla-str".to_owned());
+					args.push(format!("{k}={s}"));
+				}
+				Arg::Code(c) => {
+					args.push("--tla-code".to_owned());
+					args.push(format!("{k}={c}"));
+				}
+			}
+		}
+		args.push("-e".to_owned());
+		args.push("--".to_owned());
+		args.push(plan.target.code.clone());
+		let mut first: Option<(String, String, String)> = None;
+		for r in 0..plan.repeats.max(2) {
+			rec.op();
+			let mut cfg = crate::proc::ChildCfg {
+				timeout: std::time::Duration::from_secs(900),
+				..Default::default()
+			};
+			cfg.cwd = Some(scratch.path());
+			let pad = plan.env_padding.get(r as usize).copied().unwrap_or(0);
+			cfg.env.push(("JRSIM_PADDING".to_owned(), "x".repeat(pad)));
+			let out = crate::proc::run_child(&crate::proc::cli_bin("jrsonnet"), &args, &cfg, scratch.path());
+			let got = (out.ended.describe(), out.stdout_str(), out.stderr_str());
+			if r == 0 {
+				rec.event(format!(
+					"family={} `{}` -> {} stdout={:?} stderr={:?}",
+					plan.target.family,
+					plan.target.code.chars().take(200).collect::<String>(),
+					got.0,
+					clip(&got.1),
+					clip(&got.2)
+				));
+				rec.state(hash_str(&format!("{}|{}", plan.target.family, got.0)));
+			}
+			if !matches!(out.ended, crate::proc::Ended::Exit(0 | 1)) {
+				rec.violate(
+					"process-died",
+					&plan.target.family,
+					format!("jrsonnet {args:?}: {} stderr={:?}", got.0, clip(&got.2)),
+				);
+				return;
+			}
+			match &first {
+				None => first = Some(got),
+				Some(f) => {
+					if *f != got {
+						rec.violate(
+							"differs-between-processes",
+							&format!("process/{}", plan.target.family),
+							format!(
+								"the same command line gave different results in two fresh processes: first {} stdout={:?} stderr={:?}; run {r}: {} stdout={:?} stderr={:?}",
+								f.0,
+								clip(&f.1),
+								clip(&f.2),
+								got.0,
+								clip(&got.1),
+								clip(&got.2)
+							),
+						);
+						return;
+					}
+				}
+			}
+		}
+		rec.nontrivial = true;
+	}
+	fn shrink(&self, _plan: &ProcPlan) -> Vec<ProcPlan> {
+		Vec::new()
+	}
+}
